@@ -94,8 +94,8 @@ func checkVoucher(blob []byte, relayPub crypto.PubKey, relayID, requester peer.I
 }
 
 // rawReserve speaks the hop protocol by hand.
-func rawReserve(ctx context.Context, h host.Host, relayID peer.ID, relayPub crypto.PubKey, noWait bool) rsvResult {
-	res := rsvResult{status: stNone, t0: simrt.Now()}
+func rawReserve(ctx context.Context, h host.Host, relayID peer.ID, relayPub crypto.PubKey, noWait bool) (res rsvResult) {
+	res = rsvResult{status: stNone, t0: simrt.Now()}
 	defer func() { res.t1 = simrt.Now() }()
 	s, err := h.NewStream(ctx, relayID, proto.ProtoIDv2Hop)
 	if err != nil {
@@ -214,8 +214,8 @@ type connResult struct {
 }
 
 // rawConnect opens a hop stream from h to the relay and asks for a circuit to dest.
-func rawConnect(ctx context.Context, h host.Host, relayID, dest peer.ID, plan hopPlan) connResult {
-	res := connResult{status: stNone, t0: simrt.Now()}
+func rawConnect(ctx context.Context, h host.Host, relayID, dest peer.ID, plan hopPlan) (res connResult) {
+	res = connResult{status: stNone, t0: simrt.Now()}
 	defer func() { res.t1 = simrt.Now() }()
 	s, err := h.NewStream(ctx, relayID, proto.ProtoIDv2Hop)
 	if err != nil {
